@@ -90,6 +90,10 @@ type VCtx struct {
 	me        *Term // invocation identity (ghost)
 	actionOld *State
 	csCount   int
+	heldAtEntry *Term
+	pointsHit map[string]bool
+	curSelectChans []*Term
+	curSelectBlocking bool
 	envVals   []InputSpec // values produced by the environment (results of modelled external calls)
 	lastSelect *selectInfo
 }
@@ -858,6 +862,9 @@ func (c *VCtx) execFunction(fr *Frame, st *State) (*State, Val) {
 			c.eng.assume("assumed (definitional) in " + FuncKey(fn) + ": " + a.Src)
 		}
 	}
+	if fr.contract != nil {
+		c.runGhost(fr, st, fr.contract, "entry", nil)
+	}
 	incoming := map[*ssa.BasicBlock][]inEdge{}
 	incoming[fn.Blocks[0]] = []inEdge{{nil, st}}
 	for _, b := range rpo(fn) {
@@ -924,6 +931,19 @@ func (c *VCtx) execFunction(fr *Frame, st *State) (*State, Val) {
 	var res Val
 	if vals[0] != nil {
 		res = c.mergeVals(guards, vals)
+	}
+	if fr.contract != nil && len(fr.contract.Ghost) > 0 {
+		extra := map[string]Val{}
+		if res != nil {
+			extra["result"] = res
+			if tup, ok := res.(Tuple); ok {
+				for i, r := range tup {
+					extra[fmt.Sprintf("result%d", i)] = r
+				}
+			}
+		}
+		fr.curBlock = nil
+		c.runGhost(fr, out, fr.contract, "exit", extra)
 	}
 	return out, res
 }
